@@ -16,7 +16,7 @@ def make_groups(rng):
     t = rng.choice(["m2x3", "v2x3", "m2x2", "t3", "s0v", "rect", "ign0", "fuse"])
     gs = [family.draw_group(rng, t)]
     if rng.random() < 0.6:          # learning rates that float32 cannot represent exactly (the comparison here is bitwise, eager vs compiled)
-        gs[0]["lr"] = [0.0, rng.choice([0.01, 0.3, 0.003]), rng.choice([0.1, 0.07])]
+        gs[0]["lr"], gs[0]["keep_lr"] = [0.0, rng.choice([0.01, 0.3, 0.003]), rng.choice([0.1, 0.07])], True
     if rng.random() < 0.4:
         gs.append(family.draw_group(rng, rng.choice(["m2x2", "v2x3"])))
         if rng.random() < 0.5:          # groups commonly share one learning-rate schedule / weight decay
